@@ -256,6 +256,12 @@ func parseLine(line string, document *Document, family *FamilyNode) (Node, int, 
 	// Value (optional).
 	value := parts[4]
 
+	// Husband, wife and child nodes can only exist inside of a family. A file
+	// that uses one of these tags before any family is not valid.
+	if family == nil && (tag == TagChild || tag == TagHusband || tag == TagWife) {
+		return nil, 0, fmt.Errorf("%s must be inside a family: %s", tag.Tag(), line)
+	}
+
 	return newNode(document, family, tag, value, pointer), indent, nil
 }
 
